@@ -574,6 +574,7 @@ func (e *Exec) nextLoop(node ast.Node) (int, *LoopSpec) {
 
 // havocLoop returns the loop-head state: everything the loop may modify is unknown.
 func (e *Exec) havocLoop(st *State, body ast.Node, extra []ast.Node, spec *LoopSpec) *State {
+	e.lastGiven = nil
 	h := st.Clone()
 	vars := map[types.Object]bool{}
 	e.assignedVars(body, vars)
@@ -598,11 +599,17 @@ func (e *Exec) havocLoop(st *State, body ast.Node, extra []ast.Node, spec *LoopS
 		e.assumeType(h, v, o.Type())
 	}
 	keys := e.modKeysOf(body, extra)
+	var given map[string][]designator
 	if spec != nil && spec.ModGiven {
 		keys = map[string]bool{}
-		for _, d := range spec.Modifies {
-			for _, k := range e.designatorKeys(st, d) {
-				keys[k] = true
+		given = map[string][]designator{}
+		sc, err := e.P.scopeFor(e.Fn.C)
+		if err == nil {
+			for _, d := range spec.Modifies {
+				for _, dg := range e.designators(st, e.Fn.C, d, sc) {
+					keys[dg.key] = true
+					given[dg.key] = append(given[dg.key], dg)
+				}
 			}
 		}
 	}
@@ -618,6 +625,14 @@ func (e *Exec) havocLoop(st *State, body ast.Node, extra []ast.Node, spec *LoopS
 		}
 	}
 	sort.Strings(ks)
+	// targeted havoc: a key written only by direct statements through loop-invariant base expressions
+	// changes only at those objects
+	var direct map[string][]loopWrite
+	var calleeKeys map[string]bool
+	if !(spec != nil && spec.ModGiven) && !keys["*"] {
+		direct = e.directWrites(body, extra)
+		calleeKeys = e.calleeKeysOf(body, extra)
+	}
 	for _, k := range ks {
 		if _, ok := e.keySort[k]; !ok {
 			if h.Unknown == nil {
@@ -626,13 +641,93 @@ func (e *Exec) havocLoop(st *State, body ast.Node, extra []ast.Node, spec *LoopS
 			h.Unknown[k] = true
 			continue
 		}
-		h.Heap[k] = e.Ctx.Fresh("lh", e.keySort[k])
 		e.touched[k] = true
+		if given != nil {
+			whole := false
+			cur := e.heapGet(st, k)
+			for _, dg := range given[k] {
+				if dg.whole {
+					whole = true
+					break
+				}
+				cur = Store(cur, dg.ref, e.Ctx.Fresh("lhv", arrayElem(e.keySort[k])))
+			}
+			if !whole {
+				h.Heap[k] = e.Ctx.Define("lht", cur)
+				continue
+			}
+		}
+		if direct != nil && !calleeKeys[k] && !calleeKeys["*"] && len(direct[k]) > 0 {
+			ok := true
+			for _, w := range direct[k] {
+				if w.base == nil || !e.stableExpr(w.base, vars, keys) {
+					ok = false
+				}
+			}
+			if ok {
+				cur := e.heapGet(st, k)
+				e.spec++
+				for _, w := range direct[k] {
+					ref := e.eval(st.Clone(), w.base)
+					cur = Store(cur, ref, e.Ctx.Fresh("lhv", arrayElem(e.keySort[k])))
+				}
+				e.spec--
+				h.Heap[k] = e.Ctx.Define("lht", cur)
+				continue
+			}
+		}
+		h.Heap[k] = e.Ctx.Fresh("lh", e.keySort[k])
 	}
 	na := e.Ctx.Fresh("alloc", SInt)
 	e.Ctx.Assume(h.PC, Ge(na, st.Alloc))
 	h.Alloc = na
+	e.lastGiven = given
 	return h
+}
+
+// loopFrame: with an explicit `loop N modifies`, the body must not write anything else.
+func (e *Exec) loopFrame(head, end *State, ord int, given map[string][]designator, pos token.Pos) {
+	if given == nil || end.Dead() {
+		return
+	}
+	if _, all := given["*"]; all {
+		return
+	}
+	var keys []string
+	for k := range e.keySort {
+		keys = append(keys, k)
+	}
+	sort.Strings(keys)
+	for _, k := range keys {
+		whole := false
+		for _, d := range given[k] {
+			if d.whole {
+				whole = true
+			}
+		}
+		if whole {
+			continue
+		}
+		if end.HavocAll && !head.HavocAll {
+			e.Ctx.AddObligation(e.Fn.FullName(), "frame", fmt.Sprintf("%s/loop-frame/loop%d/%s", e.fnName(), ord, frameLabel(k)), end.PC, False, e.pos(pos))
+			continue
+		}
+		_, inEnd := end.Heap[k]
+		_, inHead := head.Heap[k]
+		if !inEnd && !inHead && !end.Unknown[k] {
+			continue
+		}
+		now, before := e.heapGet(end, k), e.heapGet(head, k)
+		if now.S == before.S {
+			continue
+		}
+		o := e.Ctx.Fresh("lfo", SInt)
+		hyp := []Term{Ge(o, Int(0)), Le(o, head.Alloc)}
+		for _, d := range given[k] {
+			hyp = append(hyp, Not(Eq(o, d.ref)))
+		}
+		e.Ctx.AddObligation(e.Fn.FullName(), "frame", fmt.Sprintf("%s/loop-frame/loop%d/%s", e.fnName(), ord, frameLabel(k)), end.PC, Implies(And(hyp...), Eq(Select(now, o), Select(before, o))), e.pos(pos))
+	}
 }
 
 func (e *Exec) checkInvariants(st *State, ord int, spec *LoopSpec, kind string, pos token.Pos) {
@@ -667,6 +762,7 @@ func (e *Exec) execFor(st *State, s *ast.ForStmt, label string) *State {
 		extra = append(extra, s.Cond)
 	}
 	head := e.havocLoop(st, s.Body, extra, spec)
+	given := e.lastGiven
 	e.assumeInvariants(head, spec)
 	var dec0 Term
 	if spec.Decreases != nil {
@@ -697,6 +793,7 @@ func (e *Exec) execFor(st *State, s *ast.ForStmt, label string) *State {
 			end = e.execStmt(end, s.Post)
 		}
 		e.checkInvariants(end, ord, spec, "inv-pres", s.Pos())
+		e.loopFrame(head, end, ord, given, s.Pos())
 		if spec.Decreases != nil {
 			d1 := e.evalSpec(end, spec.Decreases)
 			e.Ctx.AddObligation(e.Fn.FullName(), "decreases", fmt.Sprintf("%s/decreases/loop%d", e.fnName(), ord), end.PC, And(Ge(dec0, Int(0)), Lt(d1, dec0)), e.pos(s.Pos()))
@@ -772,6 +869,8 @@ func (e *Exec) execRangeSeq(st *State, s *ast.RangeStmt, label string, xt types.
 	idxObj := e.newPseudo("idx", types.Typ[types.Int])
 	define := s.Tok == token.DEFINE
 	st.Vars[idxObj] = Int(0)
+	e.vis = append(e.vis, visInfo{ord: ord, iter: idxObj})
+	defer func() { e.vis = e.vis[:len(e.vis)-1] }()
 	// at the loop head the key variable equals the next index
 	e.bindRangeVar(st, s.Key, define, Int(0))
 	if s.Value != nil {
@@ -781,6 +880,7 @@ func (e *Exec) execRangeSeq(st *State, s *ast.RangeStmt, label string, xt types.
 	}
 	e.checkInvariants(st, ord, spec, "inv-init", s.Pos())
 	head := e.havocLoop(st, s.Body, nil, spec)
+	given := e.lastGiven
 	idx := e.Ctx.Fresh("idx", SInt)
 	head.Vars[idxObj] = idx
 	e.assume(head, And(Ge(idx, Int(0)), Le(idx, ln)))
@@ -820,6 +920,7 @@ func (e *Exec) execRangeSeq(st *State, s *ast.RangeStmt, label string, xt types.
 		end.Vars[idxObj] = next
 		e.bindRangeVar(end, s.Key, define, next)
 		e.checkInvariants(end, ord, spec, "inv-pres", s.Pos())
+		e.loopFrame(head, end, ord, given, s.Pos())
 	}
 	exits := []*State{e.withPC(head, Not(cond))}
 	exits = append(exits, f.breaks[""]...)
@@ -843,6 +944,7 @@ func (e *Exec) execRangeMap(st *State, s *ast.RangeStmt, label string, mt *types
 	defer func() { e.vis = e.vis[:len(e.vis)-1] }()
 	e.checkInvariants(st, ord, spec, "inv-init", s.Pos())
 	head := e.havocLoop(st, s.Body, nil, spec)
+	given := e.lastGiven
 	vis := e.Ctx.Fresh("vis", ArraySort(ks, SBool))
 	head.Vars[visObj] = vis
 	e.assumeInvariants(head, spec)
@@ -879,6 +981,7 @@ func (e *Exec) execRangeMap(st *State, s *ast.RangeStmt, label string, mt *types
 	end := e.Merge(conts...)
 	if !end.Dead() {
 		e.checkInvariants(end, ord, spec, "inv-pres", s.Pos())
+		e.loopFrame(head, end, ord, given, s.Pos())
 	}
 	exits := []*State{e.withPC(head, Not(hasNext))}
 	exits = append(exits, f.breaks[""]...)
